@@ -72,8 +72,9 @@ def main():
         meta['detected'] = rc == 1 and bool(vio)
         d = os.path.join(V, 'seeded', '%s-%s' % (pid, name))
         os.makedirs(d, exist_ok=True)
-        shutil.copy(patch, os.path.join(d, 'patch.diff'))
-        shutil.copy(demo, os.path.join(d, 'demo.cc'))
+        for s, n in ((patch, 'patch.diff'), (demo, 'demo.cc')):
+            if os.path.abspath(s) != os.path.join(d, n):
+                shutil.copy(s, os.path.join(d, n))
         json.dump(meta, open(os.path.join(d, 'meta.json'), 'w'), indent=1)
         print('%s-%s: confirmed=%s (demo %s -> %s, tests %s) detected=%s rc=%s  %s' % (pid, name, meta['confirmed'], d0, d1, 'pass' if tests_ok else 'FAIL',
                                                                                    meta['detected'], rc, (vio or und or [''])[0][:200]))
